@@ -10,3 +10,7 @@ theorem tie_C18_decode_result_steps :
     Generated.decodeResultSteps =
       ["Str", "Str", "Bool", "Infer", "Type", "Conflicts", "Reset", "zero-rows-continue", "DecodeState", "DecodeColumn"] := by
   decide
+
+/-- the loop runs over the columns the block announces (not over the targets): the descriptors of a
+header block are consumed even when the typed target list is empty -/
+theorem tie_C18_decode_result_loop : Generated.decodeResultLoop = "for-each-column-of-block:Columns" := by decide
